@@ -116,4 +116,27 @@ def step (st : State) : Op → State
 
 def runOps (st : State) (ops : List Op) : State := ops.foldl step st
 
+
+/-! A request issued while no session is open waits: at every tick it looks through the registry (as it is
+    at that tick) and takes the first open session; closed ones it meets are released. -/
+
+def firstOpen (reg : List Sess) : Option Sess := reg.find? (fun s => !s.closed)
+
+/-- `selectSession`'s wait loop over the registries seen at successive ticks -/
+def waitPick : List (List Sess) → Option Sess
+  | [] => none
+  | reg :: rest => match firstOpen reg with
+    | some s => some s
+    | none => waitPick rest
+
+/-- before the repair the loop variable kept the last session looked at: a tick that saw only closed sessions
+    ended the wait with the last of them -/
+def waitPickBeforeFix : List (List Sess) → Option Sess
+  | [] => none
+  | reg :: rest => match firstOpen reg with
+    | some s => some s
+    | none => match reg.getLast? with
+      | some s => some s
+      | none => waitPickBeforeFix rest
+
 end Seata.LB
